@@ -218,6 +218,20 @@ func checkC10(c any, r *Rec) error {
 			}
 		}
 	}
+	// rendered because another template includes it (by a literal or a computed name), a level is
+	// the same document
+	for j := len(cs.Chain) - 1; j >= 0; j-- {
+		ld.set("/zz-page.tpl", `[{% include "`+cs.Chain[j].File+`" %}|{% include which %}]`)
+		page, err := set.FromFile("/zz-page.tpl")
+		if err != nil {
+			return fmt.Errorf("a page including level %d (%s) does not compile: %v\n %s", j, cs.Chain[j].File, err, desc)
+		}
+		want := c10Ref(cs.Chain, j)
+		out, err := page.Execute(pongo2.Context{"which": cs.Chain[j].File})
+		if err != nil || out != "["+want+"|"+want+"]" {
+			return fmt.Errorf("level %d (%s) rendered through include (static | lazy): got %q err=%v, want twice %q\n %s", j, cs.Chain[j].File, out, err, want, desc)
+		}
+	}
 	// rendering the parent directly is unaffected by its children having been compiled and rendered
 	out1, err := base.Execute(nil)
 	if err != nil || out1 != baseWant {
@@ -486,7 +500,7 @@ func relPath(from, to string) string {
 
 var _ = register(&propSpec{
 	ID:    "C10.chain",
-	Rule:  "inheritance chains base <- l1 <- ... (1-5 levels, files in different directories, parents named rooted or relatively with ..) in an in-memory loader; per level random block sets: override (with 0-n block.Super - printed, filtered, bound by with, tested by if -, also twice, inside loops, before and after nested blocks), inherit, add new blocks, nest fresh blocks inside overrides, text outside blocks; base blocks nested in blocks, in if-branches (true/false) and in for-loops. Every level is rendered (twice) and compared with a reference resolution; the base is rendered before and after its children; then 0-6 further renders of any level in any order on a fresh set, fetched with FromCache or FromFile. Loops iterate over distinct letters and definitions print the current element of a loop that encloses them in their own template (so a definition rendered through Super must show the current iteration). Blocks nested inside overrides carry fresh names or re-define an ancestor's block that was created later than the enclosing one (so blocks never contain each other - that has no defined rendering - while a block an ancestor defines at top level may be re-defined inside another block's override). Non-trivial: >= 2 levels with an override and (Super or nested block or a skipped level); distinct by sources.",
+	Rule:  "inheritance chains base <- l1 <- ... (1-5 levels, files in different directories, parents named rooted or relatively with ..) in an in-memory loader; per level random block sets: override (with 0-n block.Super - printed, filtered, bound by with, tested by if -, also twice, inside loops, before and after nested blocks), inherit, add new blocks, nest fresh blocks inside overrides, text outside blocks; base blocks nested in blocks, in if-branches (true/false) and in for-loops. Every level is rendered (twice) and compared with a reference resolution, and once more through a page that includes it (by a literal and by a computed name); the base is rendered before and after its children; then 0-6 further renders of any level in any order on a fresh set, fetched with FromCache or FromFile. Loops iterate over distinct letters and definitions print the current element of a loop that encloses them in their own template (so a definition rendered through Super must show the current iteration). Blocks nested inside overrides carry fresh names or re-define an ancestor's block that was created later than the enclosing one (so blocks never contain each other - that has no defined rendering - while a block an ancestor defines at top level may be re-defined inside another block's override). Non-trivial: >= 2 levels with an override and (Super or nested block or a skipped level); distinct by sources.",
 	Gen:   func(t *rapid.T) any { return genC10(t) },
 	New:   func() any { return &c10Case{} },
 	Check: checkC10,
@@ -512,6 +526,13 @@ func checkC10Bad(c any, r *Rec) error {
 	switch cs.Shape {
 	case "second-extends":
 		bad = `{% extends "/base.tpl" %}` + cs.Pad + `{% extends "/other.tpl" %}{% block a %}x{% endblock %}`
+	case "second-extends-same":
+		// naming the same parent again is a second extends all the same
+		bad = `{% extends "/base.tpl" %}{% block a %}x{% endblock %}` + cs.Pad + `{% extends "/base.tpl" %}{% block b %}y{% endblock %}`
+	case "second-extends-same-other-spelling":
+		bad = `{% extends "/base.tpl" %}` + cs.Pad + `{% extends "/x/../base.tpl" %}{% block a %}x{% endblock %}`
+	case "second-extends-last":
+		bad = `{% extends "/base.tpl" %}{% block a %}x{% endblock %}{% block b %}y{% endblock %}` + cs.Pad + `{% extends "/other.tpl" %}`
 	case "extends-in-if":
 		bad = cs.Pad + `{% if 1 %}{% extends "/base.tpl" %}{% endif %}{% block a %}x{% endblock %}`
 	case "extends-in-block":
@@ -550,12 +571,12 @@ func checkC10Bad(c any, r *Rec) error {
 	return nil
 }
 
-var c10Shapes = []string{"second-extends", "extends-in-if", "extends-in-block", "extends-in-for", "duplicate-block", "duplicate-block-nested", "duplicate-block-in-if",
+var c10Shapes = []string{"second-extends", "second-extends-same", "second-extends-same-other-spelling", "second-extends-last", "extends-in-if", "extends-in-block", "extends-in-for", "duplicate-block", "duplicate-block-nested", "duplicate-block-in-if",
 	"missing-parent", "extends-not-string", "endblock-name-mismatch"}
 
 var _ = register(&propSpec{
 	ID:   "C10.invalid",
-	Rule: "invalid hierarchy shapes (second extends, extends nested in if/block/for, duplicate block name at the same level / nested / in a dead branch, missing parent, non-literal parent, endblock name mismatch) with random padding, directly or reached through another extends: compilation must fail. Every case counts as non-trivial.",
+	Rule: "invalid hierarchy shapes (second extends - naming another parent, the same parent again, the same parent in another spelling, before, between and after the blocks -, extends nested in if/block/for, duplicate block name at the same level / nested / in a dead branch, missing parent, non-literal parent, endblock name mismatch) with random padding, directly or reached through another extends: compilation must fail. Every case counts as non-trivial.",
 	Gen: func(t *rapid.T) any {
 		return &c10Bad{Shape: pick(t, "shape", c10Shapes), Pad: pick(t, "pad", []string{"", "text", "\n", "{# c #}", "{{ 1 }}"}), Deep: drawBool(t, "deep")}
 	},
